@@ -60,7 +60,8 @@ def gen_tables():
         code = json.loads(out.strip().splitlines()[-1])
     except Exception:
         raise Infra('code translator output unreadable: ' + out[-500:])
-    tab['missing'] = list(tab.get('missing', [])) + list(code.get('missing', []))
+    tab['code_missing'] = code.get('missing_by_group', {})
+    tab['code_shas'] = code.get('sha_by_group', {})
     tab['code_sha'] = code.get('sha')
     return tab
 
@@ -322,9 +323,17 @@ def prove(rep, pid, theorems, extra_targets=()):
 
 
 def _prove(rep, pid, theorems, extra_targets=()):
+    from .source_groups import source_theorems, DEPS
+    theorems = source_theorems(pid) + [t for t in theorems if not t.startswith('Source.')]
     tab = gen_tables()
     if tab.get('missing'):
         rep.proof['problems'].append('translator could not extract: %s' % tab['missing'])
+    # only the function groups this property's model depends on count for it
+    groups = DEPS.get(pid, [])
+    cmiss = [m for g in groups for m in tab.get('code_missing', {}).get(g, [])]
+    if cmiss:
+        rep.proof['problems'].append('function translator could not translate: %s' % cmiss)
+    rep.proof['code_groups'] = {g: tab.get('code_shas', {}).get(g) for g in groups}
     mod = 'DcmVerif.Props.%s' % pid
     ok, log, failing, secs = lake_build([mod, 'dcmdriver'] + list(extra_targets))
     rep.proof['obligations'] = len(theorems)
